@@ -5,7 +5,7 @@ use crate::{
     world::{FetchMut, Resource, ResourceId},
 };
 
-type StdEntry<'a, K, V> = std::collections::hash_map::Entry<'a, K, V>;
+use super::restable::ResTable; // VERIF MODEL: entry into the association list
 
 /// An entry to a resource of the `World` struct.
 /// This is similar to the Entry API found in the standard library.
@@ -24,7 +24,8 @@ type StdEntry<'a, K, V> = std::collections::hash_map::Entry<'a, K, V>;
 /// println!("{:?}", value.0 * 2);
 /// ```
 pub struct Entry<'a, T: 'a> {
-    inner: StdEntry<'a, ResourceId, AtomicRefCell<Box<dyn Resource>>>,
+    table: &'a mut ResTable,
+    id: ResourceId,
     marker: PhantomData<T>,
 }
 
@@ -47,8 +48,8 @@ where
         F: FnOnce() -> T,
     {
         let value = self
-            .inner
-            .or_insert_with(move || AtomicRefCell::new(Box::new(f())));
+            .table
+            .get_or_insert_with(self.id, move || AtomicRefCell::new(Box::new(f())));
         let inner = AtomicRefMut::map(value.borrow_mut(), Box::as_mut);
 
         FetchMut {
@@ -59,11 +60,10 @@ where
     }
 }
 
-pub(super) fn create_entry<T>(
-    e: StdEntry<ResourceId, AtomicRefCell<Box<dyn Resource>>>,
-) -> Entry<T> {
+pub(super) fn create_entry<T>(table: &mut ResTable, id: ResourceId) -> Entry<T> {
     Entry {
-        inner: e,
+        table,
+        id,
         marker: PhantomData,
     }
 }
